@@ -134,6 +134,8 @@ def gen_case(rng, maxn=24):
 def oracle(case, obs):
     """None, or (class-key, message) for the first way the observation violates the C11 sentence."""
     pts, n, d = case["pts"], len(case["pts"]), case["dim"]
+    if obs["status"] == "skipped":
+        return None
     if obs["status"] == "timeout":
         return ("build-nontermination", "building the tree did not finish within the time limit (%d pivots drawn so far)"
                 % obs.get("pivots_so_far", -1))
@@ -184,10 +186,15 @@ def run_one(case, timeout=3.0):
     return core.run_impl("vf.impl.c11_driver", {"cases": [case], "timeout": timeout}, timeout=60)["obs"][0]
 
 
-def shrink(case, key):
+def shrink(case, key, budget=30.0):
     """Greedy shrinking keeping the same failure class: drop points, drop queries, lower k."""
+    import time
+    deadline = time.time() + budget
+
     def fails(c):
-        o = oracle(c, run_one(c, 1.5))
+        if time.time() > deadline:
+            return False
+        o = oracle(c, run_one(c, 1.0))
         return o is not None and o[0] == key
     cur = json.loads(json.dumps(case))
     # keep only one failing query
